@@ -9,7 +9,7 @@
 #
 from decimal import Decimal
 from math import isinf, isnan
-from typing import Optional, SupportsInt, SupportsFloat, TYPE_CHECKING, Union
+from typing import cast, Optional, SupportsInt, SupportsFloat, TYPE_CHECKING, Union
 from xml.etree.ElementTree import Element
 from elementpath import datatypes
 
@@ -269,6 +269,12 @@ def integer_to_python(value: Union[SupportsInt, str]) -> int:
     if isinstance(value, str) and datatypes.Integer.pattern.match(value) is None:
         raise ValueError(f'invalid literal for int() with base 10: {value!r}')
     return int(value)
+
+
+def decimal_to_python(value: Union[Decimal, int, float, str]) -> Decimal:
+    if isinstance(value, str) and datatypes.DecimalProxy.pattern.match(value) is None:
+        raise ValueError(f'invalid value {value!r} for xs:decimal')
+    return cast(Decimal, datatypes.DecimalProxy(value))
 
 
 def boolean_to_python(value: str) -> bool:
